@@ -108,10 +108,15 @@ def to_call(sig, named, va, extra):
     pos_names = [p[0] for p in sig['pos']]
     return {'args': vals + va, 'kwargs': [kv for kv in named if kv[0] not in pos_names] + extra}
   if not va:
-    po = [p[0] for p in sig['pos'][:sig.get('posonly', 0)]]
     d = dict((k, v) for k, v in named)
-    return {'args': [d[n] for n in po if n in d],
-            'kwargs': [kv for kv in named if kv[0] not in po] + extra}
+    pre = list(sig['pos'][:sig.get('posonly', 0)])
+    while pre and pre[-1][0] not in d:
+      pre.pop()      # positional-only parameters after the last supplied one are simply left out
+    vals = [d.get(n, dflt) for n, dflt in pre]
+    if any(v is None for v in vals):
+      return {'args': [], 'kwargs': named + extra}
+    po = [n for n, _ in pre]
+    return {'args': vals, 'kwargs': [kv for kv in named if kv[0] not in po] + extra}
   pos = [p[0] for p in sig['pos']]
   d = dict((k, v) for k, v in named)
   return {'args': [d[n] for n in pos if n in d] + va,
@@ -1548,6 +1553,22 @@ class C18(Prop):
 
   def shrink_candidates(self, case):
     import copy
+    if case['kind'] == 'nest':
+      if case.get('thread'):
+        cand = copy.deepcopy(case)
+        cand['thread'] = False
+        yield cand
+      for cn in ('c1', 'c2', 'in_c1', 'in_c2'):
+        for i, (k, v) in enumerate(case[cn]['kwargs']):
+          if v != INNER:
+            cand = copy.deepcopy(case)
+            cand[cn]['kwargs'].pop(i)
+            yield cand
+        if case[cn]['args'] and case[cn]['args'][-1] != INNER:
+          cand = copy.deepcopy(case)
+          cand[cn]['args'].pop()
+          yield cand
+      return
     calls = ['c1'] + (['c2'] if case['kind'] == 'functor' else [])
     for cn in calls:
       c = case[cn]
